@@ -214,7 +214,11 @@ def run(ctx):
     floats = float_pool()
     ctx.bound("ints", len(ints))
     ctx.bound("floats", len(floats))
-    nums = [("Int", str(i), i) for i in ints] + [("Float", float_literal(x), x) for x in floats]
+    # ints are built by arithmetic from two halves, not written as the literal under test (the printed form of a value has to
+    # read back even if the program that produced the value never wrote it as a literal: i64::MIN comes out of arithmetic)
+    def int_src(i):
+        return str(i) if abs(i) < 1000 else f"({i // 2} + {i - i // 2})"
+    nums = [("Int", int_src(i), i) for i in ints] + [("Float", float_literal(x), x) for x in floats]
     pr, n = run_batched(ctx, nums, lambda c: f"print(string_repr({c[1]}))", 50)
     execs += n
     num_T = []
